@@ -671,6 +671,276 @@ def gg_impl(a):
     return out
 
 
+# ------------------------------------------------------------------ (G) several coupling models on one host
+class _Rec:
+    """stand-in coupling model: remembers at which host index / host time it was updated"""
+    def __init__(self):
+        self.seen = []
+
+    def updateCoupledModel(self, host):
+        self.seen.append((host_index(host), host_time(host)))
+
+
+class RecA(_Rec):
+    pass
+
+
+class RecB(_Rec):
+    pass
+
+
+def host_index(host):
+    return int(host.pData.n) if hasattr(host, 'pData') else int(len(host.time) - 1)
+
+
+def host_time(host):
+    return float(host.pData.time[host.pData.n]) if hasattr(host, 'pData') else float(host.time[-1])
+
+
+def make_standin_host(P, nb, r):
+    """a host with kawin's REAL coupling list (subclass of GenericModel: addCouplingModel / clearCouplingModels /
+    updateCoupledModels are the code under test) that carries the precipitate data the coupling models read"""
+    vlib.use_repo()
+    from kawin.GenericModel import GenericModel
+
+    class PB:
+        pass
+
+    class PD:
+        pass
+
+    class Host(GenericModel):
+        def __init__(self):
+            super().__init__()
+            self.phases = ['p%d' % k for k in range(P)]; self.elements = ['A', 'B', 'C']
+            self.PBM = [PB() for _ in range(P)]
+            for pb in self.PBM:
+                pb.PSDsize = np.sort(10 ** r.uniform(-10, -7, nb)); pb.PSD = np.zeros(nb)
+            self.pData = PD(); self.pData.n = 0
+            self.pData.time = np.zeros(1); self.pData.composition = r.uniform(0, 0.1, (1, 3))
+            self.pData.Ravg = np.zeros((1, P)); self.pData.volFrac = np.zeros((1, P))
+
+        def hostStep(self, dt, kinds):
+            """what an accepted step of a precipitation model leaves behind, then the real updateCoupledModels()"""
+            d = self.pData
+            for pb, kind in zip(self.PBM, kinds):
+                pb.PSD = np.zeros(nb) if kind == 'empty' else 10 ** r.uniform(5, 25, nb) if kind == 'pop' else np.eye(nb)[r.integers(0, nb)] * 1e20
+            d.n += 1
+            d.time = np.append(d.time, d.time[-1] + dt)
+            d.composition = np.append(d.composition, r.uniform(0, 0.1, (1, 3)), axis=0)
+            rav = [0.0 if kind == 'empty' else float(10 ** r.uniform(-9, -7.5)) for kind in kinds]
+            d.Ravg = np.append(d.Ravg, [rav], axis=0)
+            d.volFrac = np.append(d.volFrac, [[0.0 if x == 0 else float(10 ** r.uniform(-6, -3.5)) for x in rav]], axis=0)
+            self.updateCoupledModels()
+    return Host()
+
+
+def couple_role(k, order, cls):
+    """position of model k among the attached models of its own class (order = expected coupling list)"""
+    if k not in order:
+        return 'detached'
+    same = [j for j in order if cls[j] == cls[k] and j != k]
+    if not same:
+        return 'only-of-its-class'
+    pos = order.index(k)
+    return 'same-class-attached-later' if any(order.index(j) > pos for j in same) else 'same-class-attached-earlier'
+
+
+def couple_impl(a):
+    """(G) one history of attach / clear / host-step operations on a host with the real coupling list; determined by a['s'].
+    host 'standin': GenericModel subclass with precipitate data; real StrengthModels (different parameter sets), real
+    GrainGrowthModels (different mobilities) and recorders of two classes; a solve call = a batch of host steps.
+    host 'graingrowth': a real GrainGrowthModel is the host (postProcess -> updateCoupledModels), real solve calls, recorders.
+    The oracle is evaluated after every operation for EVERY model that was ever attached."""
+    import random
+    vlib.use_repo()
+    from kawin.solver import SolverType
+    rng = random.Random(a['s'])
+    r = np.random.default_rng(rng.getrandbits(32))
+    hostkind = a.get('host', 'standin')
+    nsolve = rng.randint(1, 3)
+    out = []
+    # ---- the models
+    dup = rng.choice(['strength', 'grain', 'recA']) if hostkind == 'standin' else 'recA'
+    pool = ['strength', 'grain', 'recA', 'recB'] if hostkind == 'standin' else ['recA', 'recB']
+    kinds = [dup] * rng.choice([2, 2, 3]) + [rng.choice(pool) for _ in range(rng.randint(0, 3))]
+    rng.shuffle(kinds)
+    P = rng.randint(1, 2)
+    if hostkind == 'standin':
+        host = make_standin_host(P, rng.randint(3, 10), r)
+    else:
+        cMin = 10 ** rng.uniform(-7.5, -6.5)
+        ha = dict(cMin=cMin, cMax=cMin * 100, bins=rng.choice([30, 50]), gbe=0.5, M=10 ** rng.uniform(-15, -13), alpha=1.0)
+        host = make_gg(ha)
+        mu = math.log(cMin * 100 * rng.uniform(0.3, 0.6)); sg = rng.uniform(0.15, 0.4)
+        host.LoadDistributionFunction(lambda R: np.exp(-0.5 * ((np.log(R) - mu) / sg) ** 2) / R)
+        hdt = rng.uniform(0.02, 0.15) * (cMin * 100 * 0.45) ** 2 / (ha['M'] * ha['gbe'])
+    models, desc = [], []
+    for kd in kinds:
+        if kd == 'strength':
+            sm = SM()()
+            th = rng.choice([90.0, 0.0, rng.uniform(0, 90)])
+            sm.setDislocationParameters(rng.uniform(2e10, 1e11), rng.uniform(2e-10, 3e-10), rng.uniform(0.2, 0.4), theta=th)
+            w = {'A': rng.uniform(1e7, 1e9), 'C': rng.uniform(1e7, 1e9)}; ex = rng.choice([1, 2 / 3, 0.5])
+            sm.setSolidSolutionStrength(w, ex)
+            models.append(sm); desc.append({'kind': kd, 'theta': th, 'ssexp': ex})
+        elif kd == 'grain':
+            cMin = 10 ** rng.uniform(-7.5, -6.5)
+            ga = dict(cMin=cMin, cMax=cMin * 100, bins=rng.choice([20, 30]), gbe=0.5, M=10 ** rng.uniform(-15, -13), alpha=1.0)
+            g = make_gg(ga)
+            mu = math.log(cMin * 100 * rng.uniform(0.3, 0.6)); sg = rng.uniform(0.15, 0.4)
+            g.LoadDistributionFunction(lambda R, mu=mu, sg=sg: np.exp(-0.5 * ((np.log(R) - mu) / sg) ** 2) / R)
+            g.solverType = SolverType.EXPLICITEULER if rng.random() < 0.5 else SolverType.RK4
+            g._tscale = (cMin * 100 * 0.45) ** 2 / (ga['M'] * ga['gbe'])
+            models.append(g); desc.append({'kind': kd, 'M': ga['M'], 'bins': ga['bins']})
+        else:
+            models.append(RecA() if kd == 'recA' else RecB()); desc.append({'kind': kd})
+    cls = [type(m).__name__ for m in models]
+    nm = len(models)
+    # host step size: a fraction of the fastest grain model's time scale (a few inner steps per host step)
+    tsc = min([m._tscale for m in models if hasattr(m, '_tscale')] + [1e3])
+    # ---- the real update calls, in call order (wrappers on the instances; they do not change type(model))
+    log = []
+    for k, m in enumerate(models):
+        def upd(h, k=k, orig=m.updateCoupledModel):
+            log.append((host_index(h), k))
+            return orig(h)
+        m.updateCoupledModel = upd
+    # ---- schedule: slot j = before solve call j; a model is attached at most once while it is attached
+    slot = [rng.randint(0, nsolve - 1) for _ in range(nm)]
+    if not any(sl == 0 for sl in slot):
+        slot[rng.randrange(nm)] = 0
+    ops = []
+    order = []                       # expected coupling list (the oracle's own bookkeeping)
+    exp_idx = [[] for _ in range(nm)]     # host indices at which model k must have been updated
+    exp_clock = [0.0] * nm
+    ever = [False] * nm
+
+    def fail(key, what, obs=None, req=None):
+        out.append((key, what, obs, req))
+
+    def state(k):
+        m = models[k]
+        if desc[k]['kind'] == 'strength':
+            return (0 if m.rss is None else int(m.rss.shape[0]), 0 if m.ls is None else int(m.ls.shape[0]),
+                    0 if m.solidStrength is None else len(m.solidStrength))
+        if desc[k]['kind'] == 'grain':
+            return (len(m.time), len(m.avgR), float(m.time[-1]))
+        return (len(m.seen),)
+
+    def check_list(where):
+        real = list(host.couplingModels)
+        want = [models[j] for j in order]
+        if len(real) == len(want) and all(x is y for x, y in zip(real, want)):
+            return True
+        return False
+
+    def check_models(where):
+        hn = host_index(host)
+        for k in range(nm):
+            if not ever[k]:
+                continue
+            m, kd, e = models[k], desc[k]['kind'], len(exp_idx[k])
+            role = couple_role(k, order, cls)
+            who = '%s #%d (%s)' % (cls[k], k, role)
+            got = [n for n, j in log if j == k]
+            if got != exp_idx[k]:
+                fail('coupled-model-updates:several-models:%s' % role,
+                     '%s: %s was updated at host steps %r, it is attached since step %r' % (where, who, got[-6:], exp_idx[k][:1]), got[-6:], exp_idx[k][-6:])
+                return False
+            if kd == 'strength':
+                st = state(k); want = 0 if e == 0 else e + 1
+                if st != (want, want, want):
+                    fail('strength-history-misaligned:several-models:%s' % role,
+                         '%s: %s has %d/%d/%d rows (rss/ls/ss) after %d host steps since its attachment' % ((where, who) + st + (e,)), list(st), want)
+                    return False
+                if e and k in order and exp_idx[k][-1] == hn:
+                    row = [float(m.rssterm(host, p)) for p in range(len(host.phases))]
+                    if [float(x) for x in m.rss[-1]] != row or float(m.solidStrength[-1]) != float(m.ssStrength(host, hn)):
+                        fail('strength-history-row:several-models:%s' % role, '%s: last row of %s is not the row of host step %d' % (where, who, hn),
+                             [float(x) for x in m.rss[-1]], row)
+                        return False
+                if e and (np.any(m.rss < 0) or np.any(m.ls < 0) or not np.all(np.isfinite(m.rss)) or not np.all(np.isfinite(m.ls))):
+                    fail('history-values', 'rss / Ls history of %s has a negative or non-finite entry' % who, None, '>= 0, finite'); return False
+            elif kd == 'grain':
+                if not close(float(m.time[-1]), exp_clock[k], 1e-9):
+                    fail('grain-clock-misaligned:several-models:%s' % role,
+                         '%s: clock of %s is %r, the host advanced by %r since its attachment (%d host steps)' % (where, who, float(m.time[-1]), exp_clock[k], e),
+                         float(m.time[-1]), exp_clock[k])
+                    return False
+                if len(m.time) != len(m.avgR) or (e and not close(float(m.pbm.ThirdMoment()), 1.0, 1e-9)):
+                    fail('coupled-grain-volume', '%s: %s: time/avgR lengths %d/%d, grain volume %r' % (where, who, len(m.time), len(m.avgR), float(m.pbm.ThirdMoment())), None, 1.0)
+                    return False
+            else:
+                if [n for n, _ in m.seen] != exp_idx[k]:
+                    fail('coupled-model-updates:several-models:%s' % role, '%s: %s saw host indices %r' % (where, who, [n for n, _ in m.seen][-6:]),
+                         [n for n, _ in m.seen][-6:], exp_idx[k][-6:])
+                    return False
+        return True
+
+    ok = True
+    nsteps_call = []
+    for call in range(nsolve):
+        if call > 0 and rng.random() < 0.15:
+            host.clearCouplingModels(); ops.append('C'); order = []
+            if len(host.couplingModels) != 0:
+                fail('clear-leaves-models', 'clearCouplingModels left %d models attached' % len(host.couplingModels), len(host.couplingModels), 0); ok = False; break
+        todo = [k for k in range(nm) if slot[k] == call]
+        if call > 0:      # after a clear (or just so) some earlier models are attached again
+            todo += [k for k in range(nm) if ever[k] and k not in order and rng.random() < 0.5]
+        rng.shuffle(todo)
+        for k in todo:
+            before = list(host.couplingModels)
+            snap = [state(j) for j in range(nm)]
+            host.addCouplingModel(models[k]); ops.append('A %d %d' % (k, sorted(set(cls)).index(cls[k])))
+            order.append(k); ever[k] = True
+            if not check_list('attach'):
+                real = list(host.couplingModels)
+                lost = [x for x in before if not any(x is y for y in real)]
+                how = ('drops-same-class' if lost and all(type(x) is type(models[k]) for x in lost) else 'drops-other-class' if lost
+                       else 'not-appended' if not (real and real[-1] is models[k]) else 'reorders')
+                fail('attach-alters-coupling-list:%s:%s' % (how, cls[k]),
+                     'addCouplingModel(%s #%d) with %r attached: the list is now %r' % (cls[k], k, [type(x).__name__ for x in before], [type(x).__name__ for x in real]),
+                     [type(x).__name__ for x in real], [type(x).__name__ for x in before] + [cls[k]])
+                ok = False; break
+            if [state(j) for j in range(nm)] != snap:
+                fail('attach-alters-model-history', 'addCouplingModel(%s #%d) changed the history of a model' % (cls[k], k), None, 'unchanged'); ok = False; break
+        if not ok:
+            break
+        n0 = host_index(host)
+        if hostkind == 'standin':
+            for _ in range(rng.randint(0, 5)):
+                dt = tsc * rng.uniform(0.01, 0.08)
+                host.hostStep(dt, [rng.choice(['empty', 'pop', 'pop', 'single']) for _ in range(P)])
+                ops.append('S')
+                for k in order:
+                    exp_idx[k].append(host_index(host)); exp_clock[k] += dt
+                if not check_models('solve call %d, host step %d' % (call + 1, host_index(host))):
+                    ok = False; break
+        else:
+            host.solve(hdt, solverType=SolverType.EXPLICITEULER if rng.random() < 0.5 else SolverType.RK4)
+            for n in range(n0 + 1, host_index(host) + 1):
+                ops.append('S')
+                for k in order:
+                    exp_idx[k].append(n)
+            if not check_models('after solve call %d (host steps %d..%d)' % (call + 1, n0 + 1, host_index(host))):
+                ok = False
+            for k in order:          # the recorders saw the host clock of every step
+                tt = [t for _, t in models[k].seen][-(host_index(host) - n0):] if host_index(host) > n0 else []
+                if ok and tt != [float(x) for x in host.time[n0 + 1:]]:
+                    fail('coupled-model-updates:several-models:%s' % couple_role(k, order, cls), 'recorder #%d saw host times %r' % (k, tt[-3:]), tt[-3:], [float(x) for x in host.time[-3:]]); ok = False
+        nsteps_call.append(host_index(host) - n0)
+        if not ok:
+            break
+    return dict(out=out, ops=ops, log=list(log), ids=[next(j for j in range(nm) if models[j] is x) if any(models[j] is x for j in range(nm)) else -1 for x in host.couplingModels],
+                n=host_index(host), kinds=kinds, desc=desc, nsolve=nsolve, steps=nsteps_call, host=hostkind,
+                sameclass=max(sum(1 for j in order if cls[j] == c) for c in set(cls)) if order else 0)
+
+
+def chk_couple(a):
+    return couple_impl(a)['out']
+
+
 def chk_coupled(args):
     r = Result()
     coupled_run(r, args, False, None)
@@ -680,7 +950,7 @@ def chk_coupled(args):
 CHECKS = {'strength': chk_strength, 'limits': chk_limits, 'zener': chk_zener, 'normalize': chk_normalize,
           'ggrun': lambda a: chk_ggrun(a)[0], 'gen': lambda v: (gen_impl(v), [])[1], 'contrib': lambda a: (contrib_impl(a), [])[1],
           'hist': lambda a: chk_hist(a)[0], 'ggcalls': lambda a: (gg_impl(a), [])[1], 'ggcase': lambda a: (gg_case(a), [])[1],
-          'coupled': chk_coupled}
+          'coupled': chk_coupled, 'couple': chk_couple}
 
 
 def apply_check(res, kind, args):
@@ -697,7 +967,20 @@ def apply_check(res, kind, args):
 def coupled_args(ctx):
     return dict(seed=ctx.seed, mob=10 ** ctx.rng.uniform(-13.5, -12.5),      # several grain-growth sub-steps per late host step
                 t1=ctx.rng.uniform(3.0, 10.0), t2=ctx.n(ctx.rng.uniform(20.0, 100.0), ctx.rng.uniform(500.0, 3000.0)),
-                cap=ctx.n(600, 4000), nsample=ctx.n(40, 400), pick=ctx.rng.getrandbits(32))
+                cap=ctx.n(600, 4000), nsample=ctx.n(40, 400), pick=ctx.rng.getrandbits(32), extra=coupled_extra(ctx.rng))
+
+
+def coupled_extra(rng):
+    """further coupling models of the run (F): a second StrengthModel (other dislocation character / phase-specific
+    parameters) and a second GrainGrowthModel (other mobility), sometimes a third one; each attached either before the
+    first solve call (before or after the two base models) or between the solve calls"""
+    ex = [dict(kind='S', theta=rng.choice([0.0, 45.0, 30.0]), phase=rng.choice(['all', 'AL3ZR']), when=rng.choice([0, 0, 1]), first=rng.random() < 0.5),
+          dict(kind='G', mobf=rng.uniform(0.05, 0.4), when=rng.choice([0, 0, 1]), first=rng.random() < 0.5)]
+    if rng.random() < 0.5:
+        ex.append(dict(kind='S', theta=rng.uniform(0, 90), phase='all', when=rng.choice([0, 1]), first=rng.random() < 0.5) if rng.random() < 0.5
+                  else dict(kind='G', mobf=rng.uniform(0.01, 0.1), when=rng.choice([0, 1]), first=rng.random() < 0.5))
+    rng.shuffle(ex)
+    return ex
 
 
 def coupled_impl(a):
@@ -717,8 +1000,64 @@ def coupled_impl(a):
     gg = GG()(1e-7, 1e-5, 60, 40, 80)
     gg.setGrainBoundaryMobility(a['mob'])
     gg.LoadDistributionFunction(lambda R: np.exp(-0.5 * ((np.log(R) - math.log(2e-6)) / 0.3) ** 2) / R)
-    m.addCouplingModel(sm)
-    m.addCouplingModel(gg)
+    # further models of the same classes (different parameter sets), attached at different times / in different orders
+    extras = []
+    for e in a.get('extra', []):
+        if e['kind'] == 'S':
+            x = SM()()
+            x.setDislocationParameters(25.4e9, 0.286e-9, 0.34, ri=2 * 0.286e-9, theta=e['theta'], psi=120)
+            x.setCoherencyParameters(0.0075, phase=e['phase'])
+            x.setModulusParameters(68e9, phase=e['phase'])
+            x.setInterfacialParameters(0.1)
+            x.setSolidSolutionStrength({'ZR': 1e9}, 1)
+            x.setBaseStrength(1e7)
+        else:
+            x = GG()(1e-7, 1e-5, 40, 30, 60)
+            x.setGrainBoundaryMobility(a['mob'] * e['mobf'])
+            x.LoadDistributionFunction(lambda R: np.exp(-0.5 * ((np.log(R) - math.log(2e-6)) / 0.3) ** 2) / R)
+        extras.append(dict(e, model=x, rec=[], n_attach=None, t_attach=None))
+    calls = []                    # every updateCoupledModel call of the run: (host index, model id); ids: 0 sm, 1 gg, 2.. extras
+    ops = []
+
+    def logged(k, mdl, rec=None):
+        orig = mdl.updateCoupledModel
+
+        def upd(host):
+            calls.append((int(host.pData.n), k))
+            orig(host)
+            if rec is not None:      # the model's own state right after ITS update of this host step
+                n = int(host.pData.n)
+                if isinstance(mdl, SM()):
+                    rec.append((n, float(host.pData.time[n]), 0 if mdl.rss is None else int(mdl.rss.shape[0]), 0 if mdl.ls is None else int(mdl.ls.shape[0]),
+                                0 if mdl.solidStrength is None else len(mdl.solidStrength)))
+                else:
+                    rec.append((n, float(host.pData.time[n]), float(mdl.time[-1]), float(mdl.pbm.ThirdMoment()), len(mdl.time) - len(mdl.avgR)))
+        mdl.updateCoupledModel = upd          # instance attribute: type(mdl) is unchanged
+
+    def attach(k, mdl, e=None):
+        before = list(m.couplingModels)
+        m.addCouplingModel(mdl)
+        ops.append('A %d %d' % (k, 0 if isinstance(mdl, SM()) else 1))
+        if e is not None:
+            e['n_attach'] = int(m.pData.n) if hasattr(m, 'pData') and m.pData is not None else 0
+            e['t_attach'] = float(m.pData.time[e['n_attach']]) if e['n_attach'] > 0 else 0.0
+        after = list(m.couplingModels)
+        if not (len(after) == len(before) + 1 and all(x is y for x, y in zip(before, after)) and after[-1] is mdl):
+            attach_bad.append((k, [type(x).__name__ for x in before], [type(x).__name__ for x in after], type(mdl).__name__,
+                               bool([x for x in before if not any(x is y for y in after)])
+                               and all(type(x) is type(mdl) for x in before if not any(x is y for y in after))))
+    attach_bad = []
+    logged(0, sm); logged(1, gg)
+    for k, e in enumerate(extras):
+        logged(k + 2, e['model'], e['rec'])
+    for k, e in enumerate(extras):
+        if e['when'] == 0 and e['first']:
+            attach(k + 2, e['model'], e)
+    attach(0, sm)
+    attach(1, gg)
+    for k, e in enumerate(extras):
+        if e['when'] == 0 and not e['first']:
+            attach(k + 2, e['model'], e)
     rows = []
 
     def obs(host):
@@ -735,12 +1074,18 @@ def coupled_impl(a):
             raise kwnruns.StopRun()
     kwnruns.run(m, a['t1'], observer=obs)          # the observer slot is registered once and stays for later solve calls
     n1 = len(rows)
+    ops += ['S'] * n1
+    for k, e in enumerate(extras):
+        if e['when'] == 1:
+            attach(k + 2, e['model'], e)
     kwnruns.run(m, a['t2'])
     n2 = len(rows) - n1
+    ops += ['S'] * n2
     with np.errstate(all='ignore'):
         prec = sm.precStrength(m) if sm.rss is not None else np.zeros(0)
         tot = sm.totalStrength(sm.solidStrength, prec) if sm.rss is not None else np.zeros(0)
-    return dict(m=m, sm=sm, gg=gg, rows=rows, n1=n1, n2=n2, prec=np.asarray(prec, dtype=float), tot=np.asarray(tot, dtype=float))
+    return dict(m=m, sm=sm, gg=gg, rows=rows, n1=n1, n2=n2, prec=np.asarray(prec, dtype=float), tot=np.asarray(tot, dtype=float),
+                extras=extras, calls=calls, ops=ops, attach_bad=attach_bad)
 
 
 def coupled_run(res, a, use_model, _unused=None):
@@ -780,6 +1125,58 @@ def coupled_run(res, a, use_model, _unused=None):
             res.violate('coupled-precStrength', 'precStrength has %d entries for %d host rows' % (len(prec), nhost), case, len(prec), nhost)
     elif len(tot) != nhost or not np.all(np.isfinite(tot)) or np.any(tot < np.maximum(prec, np.asarray(sm.solidStrength, dtype=float)) * (1 - 1e-12)):
         res.violate('coupled-totalStrength', 'total strength over the coupled run is non-finite or below a part', case)
+    # --- every further model that was attached: one update per host step since ITS attachment, history / clock aligned;
+    #     attaching never detached or reordered the others
+    for k, before, after, cn, same in R['attach_bad']:
+        res.violate('attach-alters-coupling-list:%s:%s' % ('drops-same-class' if same else 'changes-others', cn),
+                    'addCouplingModel(%s) with %r attached: the list is now %r' % (cn, before, after), case, after, before + [cn]); break
+    order = [int(o.split()[1]) for o in R['ops'] if o[0] == 'A']
+    cls = {0: 'S', 1: 'G'}
+    cls.update({k + 2: e['kind'] for k, e in enumerate(R['extras'])})
+    nfin = int(m.pData.n)
+    for k, e in enumerate(R['extras']):
+        role = couple_role(k + 2, order, cls)
+        cn = 'StrengthModel' if e['kind'] == 'S' else 'GrainGrowthModel'
+        na, ta, rec = e['n_attach'], e['t_attach'], e['rec']
+        want_n = list(range(na + 1, nfin + 1))
+        got_n = [x[0] for x in rec]
+        who = '%s #%d (%s, attached %s)' % (cn, k + 2, role, 'before the first solve call' if e['when'] == 0 else 'between the solve calls, after host step %d' % na)
+        if got_n != want_n:
+            miss = [n for n in want_n if n not in got_n][:3]
+            res.violate('coupled-model-updates:several-models:%s' % role, '%s was updated at %d of the %d host steps since its attachment (first missing: %r)'
+                        % (who, len(got_n), len(want_n), miss), case, len(got_n), len(want_n))
+            continue
+        for x in rec:
+            n, t = x[0], x[1]
+            if e['kind'] == 'S' and not (x[2] == x[3] == x[4] == n - na + 1):
+                res.violate('strength-history-misaligned:several-models:%s' % role, 'after host step %d %s has %d/%d/%d rows (rss/ls/ss)' % (n, who, x[2], x[3], x[4]),
+                            case, [x[2], x[3], x[4]], n - na + 1); break
+            if e['kind'] == 'G' and not close(x[2], t - ta, 1e-9):
+                res.violate('grain-clock-misaligned:several-models:%s' % role, 'after host step %d (t=%r) the clock of %s is %r' % (n, t, who, x[2]), case, x[2], t - ta); break
+            if e['kind'] == 'G' and (x[4] != 0 or not close(x[3], 1.0, 1e-9)):
+                res.violate('coupled-grain-volume', 'after host step %d %s: grain volume %r, time/avgR length difference %d' % (n, who, x[3], x[4]), case, x[3], 1.0); break
+        x = e['model']
+        if e['kind'] == 'S':
+            fin = 0 if x.rss is None else int(x.rss.shape[0])
+            if fin != (nfin - na + 1 if nfin > na else 0):
+                res.violate('strength-history-misaligned:several-models:%s' % role, 'final history of %s has %d rows for %d host steps since its attachment' % (who, fin, nfin - na),
+                            case, fin, nfin - na + 1)
+            elif fin and (not np.all(np.isfinite(x.rss)) or np.any(x.rss < 0) or not np.all(np.isfinite(x.ls)) or np.any(x.ls < 0)
+                          or not np.all(np.isfinite(x.solidStrength)) or np.any(np.asarray(x.solidStrength) < 0)):
+                res.violate('history-values', 'history of %s has a negative or non-finite entry' % who, case)
+            elif fin and na == 0:
+                with np.errstate(all='ignore'):
+                    px = np.asarray(x.precStrength(m), dtype=float)
+                    tx = np.asarray(x.totalStrength(x.solidStrength, px), dtype=float)
+                if len(px) != nhost or not np.all(np.isfinite(px)) or np.any(px < 0):
+                    res.violate('coupled-precStrength', 'precipitate strength of %s over the coupled run: %d entries for %d host rows or negative/non-finite' % (who, len(px), nhost), case)
+                elif not np.all(np.isfinite(tx)) or np.any(tx < np.maximum(px, np.asarray(x.solidStrength, dtype=float)) * (1 - 1e-12)):
+                    res.violate('coupled-totalStrength', 'total strength of %s over the coupled run is non-finite or below a part' % who, case)
+        elif not close(float(x.time[-1]), float(m.pData.time[nfin]) - ta, 1e-9):
+            res.violate('grain-clock-misaligned:several-models:%s' % role, 'final clock of %s is %r, host clock %r, attached at %r' % (who, float(x.time[-1]), float(m.pData.time[nfin]), ta),
+                        case, float(x.time[-1]), float(m.pData.time[nfin]) - ta)
+        res.count('F:extra-%s:%s' % (cn, 'before-first-solve' if e['when'] == 0 else 'between-solves'))
+    res.extra['coupled_run']['models'] = ['StrengthModel', 'GrainGrowthModel'] + [('StrengthModel' if e['kind'] == 'S' else 'GrainGrowthModel') + (':late' if e['when'] else '') for e in R['extras']]
     free = [k for k, r in enumerate(rows) if r['z'] == 0]
     res.count('F:host-steps-without-pinning', len(free))
     res.count('F:host-steps-subcore-radius', sum(1 for r in rows if 0 < 2 * r['rss'] < float(sm.ri)))
@@ -807,6 +1204,10 @@ def coupled_run(res, a, use_model, _unused=None):
                 seq += ' %s %s %s' % (f2b(r['ss']), enc_list([r['rss']]), enc_list([r['ls']]))
         lines.append(seq)
         after.append(('hist', {'part': 'F'}, sm.rss.shape[0], sm.rss[:, 0].tolist(), sm.ls[:, 0].tolist(), list(sm.solidStrength)))
+        # the coupling list of the run as an op sequence: who was updated at which host step, in call order
+        ids = [next((k for k, x in enumerate([sm, gg] + [e['model'] for e in R['extras']]) if x is y), None) for y in m.couplingModels]
+        lines.append('c18.couple 0 %d %s' % (len(R['ops']), ' '.join(R['ops'])))
+        after.append(('couple', {'part': 'F', 'ops': ' '.join(o for o in R['ops'] if o != 'S'), 'steps': [n1, n2]}, [i for i in ids if i is not None], steps, R['calls']))
     return lines, after
 
 
@@ -916,6 +1317,25 @@ def corr(ctx, oracle_only=False, scale=1, skip_run=False):
                         ln += ' %s %s' % (enc_list(psd), enc_list(size))
             take([(ln, ('hist', {'part': 'D', 'P': h['P'], 'steps': [len(s) for s in h['seq_steps']], **a}, h['n_rows'],
                         h['rss'].ravel().tolist(), h['ls'].ravel().tolist(), h['ss']))])
+
+    # ---------------- (G) several coupling models on one host: attach / clear / host-step histories on the real coupling list
+    for it in range(ctx.n(60, 3000) * scale):
+        a = {'s': rng.getrandbits(48), 'host': 'graingrowth' if it % 6 == 5 else 'standin'}
+        case = {'chk': 'couple', 'args': a}
+        ok, h = vlib.guarded(res, 'coupling-list', case, couple_impl, a)
+        if not ok:
+            continue
+        for key, what, obs, req in h['out'][:3]:
+            res.violate(key, what, case, obs, req)
+        res.case(('G', a['host'], a['s']), sum(h['steps']) > 0 and h['sameclass'] >= 2)
+        res.count('G:host=%s' % a['host']); res.count('G:solve-calls=%d' % h['nsolve']); res.count('G:host-steps', sum(h['steps']))
+        res.count('G:models-of-one-class=%d' % h['sameclass']); res.count('G:attach-between-solves', sum(1 for k, o in enumerate(h['ops']) if o[0] == 'A' and 'S' in h['ops'][:k]))
+        res.count('G:clear', h['ops'].count('C'))
+        if len([x for x in res.samples if x.get('part') == 'G']) < 1:
+            res.sample({'part': 'G', **a, 'kinds': h['kinds'], 'ops': ' '.join(h['ops']), 'steps': h['steps']}, cap=6)
+        if use_model and not h['out']:
+            take([('c18.couple 0 %d %s' % (len(h['ops']), ' '.join(h['ops'])) if h['ops'] else 'c18.couple 0 0',
+                   ('couple', {'part': 'G', **a, 'ops': ' '.join(h['ops'])}, h['ids'], h['n'], h['log']))])
 
     # ---------------- (E) grain growth
     for _ in range(ctx.n(400, 30000) * scale):
@@ -1038,6 +1458,16 @@ def compare(res, verb, t, aft):
             res.disagree('history length', case, n_rows, mn); return
         if not (vlib.all_close(rss, mr, 1e-9) and vlib.all_close(ls, ml, 1e-7, 1e-12) and vlib.all_close(ss, ms, 1e-12)):
             res.disagree('history rows', case, [rss[-3:], ls[-3:], ss[-3:]], [mr[-3:], ml[-3:], ms[-3:]])
+        res.traces += 1
+    elif kind == 'couple':
+        _, _, ids, n, log = aft
+        mids = t.nats(); mn = t.nat(); k = t.nat()
+        mlog = [(t.nat(), t.nat()) for _ in range(k)]
+        if mids != list(ids) or mn != n:
+            res.disagree('coupling list / host steps after the history', case, [list(ids), n], [mids, mn]); return
+        if log is not None and mlog != [tuple(x) for x in log]:
+            bad = next((i for i, (x, y) in enumerate(zip(mlog, log)) if tuple(x) != tuple(y)), min(len(mlog), len(log)))
+            res.disagree('updateCoupledModel calls (host index, model) in call order', dict(case, first_difference=bad), [list(x) for x in log[bad:bad + 4]], [list(x) for x in mlog[bad:bad + 4]])
         res.traces += 1
     elif kind == 'rssls':
         mr, ml = t.flt(), t.flt()
